@@ -526,11 +526,7 @@ func genRkc(r *vh.Rng, g *valgen.Gen) (c *rcCase, safe bool, class string) {
 			}
 			hit := lru.has(k)
 			if !up && !hit {
-				if mode == 0 {
-					continue
-				}
-				safe = false
-				ev["noconn"] = true
+				ev["noconn"] = true // the error; nothing is cached (KF-C09-2 repaired): a safe step
 			}
 			last = k
 			kind := "q"
@@ -545,6 +541,9 @@ func genRkc(r *vh.Rng, g *valgen.Gen) (c *rcCase, safe bool, class string) {
 			default:
 				if lru.add(k) {
 					ev["evict"] = true
+				}
+				if !up {
+					lru.remove(k)
 				}
 				if up && cur[k].outcome == "meta" {
 					lru.remove(k)
